@@ -55,7 +55,7 @@ func buildIncludeExceptString(parser *Parser, parsedLine ParsedLine) (string, er
 	return replaceSuffixes(bytes.NewBufferString(contentWithoutExclusions), parsedLine.suffixReplacements)
 }
 
-func replaceSuffixes(inputLines *bytes.Buffer, suffixReplacements map[string]string) (string, error) {
+func replaceSuffixes(inputLines *bytes.Buffer, suffixReplacements []suffixReplacement) (string, error) {
 	if suffixReplacements == nil {
 		return inputLines.String(), nil
 	}
@@ -67,11 +67,11 @@ func replaceSuffixes(inputLines *bytes.Buffer, suffixReplacements map[string]str
 	for scanner.Scan() {
 		entry := scanner.Text()
 		if !skipRegex.MatchString(entry) {
-			for match, replacement := range suffixReplacements {
+			for _, pair := range suffixReplacements {
 				var found bool
-				entry, found = strings.CutSuffix(entry, match)
-				if found && replacement != `""` {
-					entry += replacement
+				entry, found = strings.CutSuffix(entry, pair.match)
+				if found && pair.replacement != `""` {
+					entry += pair.replacement
 				}
 			}
 		}
